@@ -82,6 +82,10 @@ def r1(ctx):
     ctx.floor(R, 30)
 
 
+def _rvops(r):
+    return [o for o in [r.get("o"), r.get("a"), r.get("b")] + list(r.get("ops", [])) if isinstance(o, dict)]
+
+
 def r2(ctx):
     R = "C07-R2"
     ctx.rule(R, "Fs::crash: Vec::clear on Fs::pending on every path; retain on persisted_files, persisted_dirs and persisted_symlinks on every "
@@ -93,6 +97,22 @@ def r2(ctx):
     ok = bool(cl) and not always_passes(b, cl)
     ctx.inst(R, "crash:clears-pending", ok, b.span, "the pending log is discarded on every path" if ok else
              "Fs::crash has a path that keeps pending operations: unsynced changes survive the crash")
+    # the page cache is memory too: what was cached before the crash must not make the restarted host's first reads hits
+    PC = FS + "page_cache"
+    if True:
+        clr = []
+        for fb in ctx.w.family(b.id):
+            for bb, t in fb.calls(re.compile(r"(IndexSet|IndexMap|HashSet|HashMap|VecDeque|Vec|BTreeSet|BTreeMap|PageCache)::(clear|drain)$|^std::option::Option::take$")):
+                if t["args"] and "field:" + PC in Slicer(ctx.w).atoms(fb, t["args"][0]):
+                    clr.append(t["s"])
+            for bb, i, s2 in fb.all_stmts():
+                if i != "term" and place_last_field(s2["p"]) in (PC, "turmoil_fs::page_cache::PageCache::pages"):
+                    clr.append(s2["s"])
+        has_cache = any(f.get("name") == "page_cache" for v in ctx.w.adts.get("turmoil_fs::Fs", {}).get("variants", []) for f in v["fields"])
+        if has_cache:
+            ctx.inst(R, "crash:clears-page-cache", bool(clr), clr[0] if clr else b.span, "cached pages are dropped with the crash" if clr else
+                     "Fs::crash keeps the page cache: the restarted host's first reads are cache hits (1 ms instead of the configured io_latency) - state of the "
+                     "crashed incarnation leaks into the next one")
     for fld in ("persisted_files", "persisted_dirs", "persisted_symlinks"):
         rt = [(bb, t) for bb, t in b.calls(re.compile(r"^indexmap::IndexMap::retain$")) if FS + fld in _fields_of(b, t["args"][0])]
         okr = bool(rt) and not always_passes(b, [x for x, _ in rt])
